@@ -46,6 +46,17 @@ CHECKS["C16"] = dict(
     note="Trusted: PrefixTreeN set semantics (C08 check), the symbolic executor (validated against native runs in the C01/C04 checks). "
          "Programs are sampled; table contents and variable assignments are decided by the solver for universes of 2 (quick) and 3 (thorough) elements.")
 
+CHECKS["C08"] = dict(
+    technique="bounded inductive verification by SAT: the real prefix_tree.rs is executed symbolically (one operation from an arbitrary valid pre-state) over abstract ordered maps",
+    text="Every method of every arity of the real eqlog-runtime/src/prefix_tree.rs (insert, remove, contains, clear, iter, iter_restrictions, get, "
+         "union, difference, insert_restriction, remove_restriction, mapped) is executed symbolically from an arbitrary pre-state satisfying the "
+         "representation invariant, with symbolic arguments; the solver shows set-theoretic membership of the result, ascending duplicate-free "
+         "iteration, exact emptiness, exact prefix lookups and the invariant again. One inductive step covers operation sequences of any length "
+         "within the universe bound; counterexamples are replayed against the real runtime.",
+    design_ref="§4 C08, §9",
+    note="Trusted: WBTreeMap / WBTreeSet as ordered finite maps with (left, right) callbacks (C14 is not decided by this family). Outside the claim: "
+         "clone independence / structure sharing, and invariant breaking through get_mut (documented in the source). Universe: 3 keys for arity <= 2 (quick) / <= 3 (thorough), 2 keys above; quick stops at arity 5.")
+
 NOT_APPLICABLE = {
     "C02": "check not built yet (ghost-model soundness lemma planned, DESIGN.md §9)",
     "C03": "check not built yet (follows from C01 + C02 lemmas; idempotence lemma planned)",
